@@ -23,6 +23,7 @@ def run(ctx: Ctx):
     SC.equal_cost_shortcut(ctx, "S2")
     SC.lens_helper_total(ctx, "S3")
     SC.tokens_compared_as_integers(ctx, "S3")
+    SC.kernel_value_table(ctx, "S5", "distance")
     SC.distance_buffers_are_floating(ctx, "S3")
     # normalisation divides by the reference length (not the hypothesis length), in both result forms
     f = pkg.func("_string::_string_matching")
